@@ -120,6 +120,14 @@ func (c *cust) UnmarshalYAML(n *yaml.Node) error {
 	return nil
 }
 
+// sp: two string fields — different values may have the same printed form ({"a b", ""} and
+// {"a", "b "} both print as {a b }), as may an `any` field holding the string "true" and the
+// boolean true.  An implementation that identifies members by their %v text conflates them.
+type sp struct {
+	A string `json:"a" yaml:"a"`
+	B string `json:"b" yaml:"b"`
+}
+
 type perm struct {
 	Order  []int  `json:"order"`
 	Doc    string `json:"doc"`
@@ -190,20 +198,27 @@ func one[T comparable](c *jcase, univ []T) {
 	yml := c.Codec == "yaml"
 	var data []byte
 	var err error
-	// encode
-	if c.Field {
-		if yml {
-			data, err = yaml.Marshal(wrap[T]{S: s})
+	// encode (a panic of the encoder is an encoding error of this case)
+	func() {
+		defer func() {
+			if r := recover(); r != nil {
+				err = fmt.Errorf("panic: %v", r)
+			}
+		}()
+		if c.Field {
+			if yml {
+				data, err = yaml.Marshal(wrap[T]{S: s})
+			} else {
+				data, err = json.Marshal(wrap[T]{S: s})
+			}
 		} else {
-			data, err = json.Marshal(wrap[T]{S: s})
+			if yml {
+				data, err = yaml.Marshal(s)
+			} else {
+				data, err = json.Marshal(s)
+			}
 		}
-	} else {
-		if yml {
-			data, err = yaml.Marshal(s)
-		} else {
-			data, err = json.Marshal(s)
-		}
-	}
+	}()
 	if err != nil {
 		c.EncErr = err.Error()
 		return
@@ -249,7 +264,14 @@ func one[T comparable](c *jcase, univ []T) {
 }
 
 // decodeInto decodes the document into (a set with the members of) t and returns the members afterwards.
-func decodeInto[T comparable](c *jcase, data []byte, t set.Set[T]) ([]T, string) {
+func decodeInto[T comparable](c *jcase, data []byte, t set.Set[T]) (members []T, derr string) {
+	// a panic inside the decoder (yaml.v3 re-panics what an UnmarshalYAML method panics with) is
+	// a decode failure of this case, not the end of the harness
+	defer func() {
+		if r := recover(); r != nil {
+			members, derr = t.Slice(), fmt.Sprint("panic: ", r)
+		}
+	}()
 	yml := c.Codec == "yaml"
 	var err error
 	if c.Field {
@@ -460,6 +482,20 @@ func universe(elem string, n int, c *jcase) {
 			u[i] = iface{V: []any{"x", nil, true, 0.5}[i%4], K: []string{"a", "b", ""}[(i/4)%3]}
 		}
 		one(c, u)
+	case "sp":
+		u := make([]sp, n)
+		as := []string{"a b", "a", "a ", "", "a b "}
+		bs := []string{"", "b ", " b", "b", " "}
+		for i := range u {
+			u[i] = sp{A: as[i%5], B: bs[(i/5)%5]}
+		}
+		one(c, u)
+	case "ifacetxt": // an `any` field whose values print alike: "true"/true, "0.5"/0.5, "<nil>"/nil
+		u := make([]iface, n)
+		for i := range u {
+			u[i] = iface{V: []any{"true", true, "0.5", 0.5, "<nil>", nil}[i%6], K: []string{"a", "a b"}[(i/6)%2]}
+		}
+		one(c, u)
 	case "custom":
 		u := make([]cust, n)
 		for i := range u {
@@ -479,10 +515,10 @@ func universe(elem string, n int, c *jcase) {
 
 // maxUniverse is the largest universe of distinct values each element type offers.
 var maxUniverse = map[string]int{"string": len(strUniv), "bool": 2, "int": 50, "float": 50, "struct": 50,
-	"opt": 36, "nested": 36, "arr": 16, "iface": 12, "custom": 16}
+	"opt": 36, "nested": 36, "arr": 16, "iface": 12, "custom": 16, "sp": 25, "ifacetxt": 12}
 
 // mergeable lists the element types whose decoding into an existing value differs from decoding into a fresh one.
-var mergeable = []string{"opt", "nested", "arr", "iface", "custom"}
+var mergeable = []string{"opt", "nested", "arr", "iface", "custom", "sp", "ifacetxt"}
 
 func galInts(a []int) string {
 	return gal.ListOf(a, func(i int) string { return gal.Z(int64(i)) })
@@ -527,7 +563,7 @@ func subset(r *rand.Rand, n, max int, repeats bool) []int {
 }
 
 func randomCase(r *rand.Rand, out *gal.Out) {
-	elems := []string{"string", "string", "int", "float", "bool", "struct", "opt", "opt", "nested", "arr", "iface", "custom"}
+	elems := []string{"string", "string", "int", "float", "bool", "struct", "opt", "opt", "nested", "arr", "iface", "custom", "sp", "ifacetxt"}
 	c := jcase{Kind: "random", Elem: elems[r.IntN(len(elems))], Codec: []string{"json", "yaml"}[r.IntN(2)], Field: r.IntN(3) == 0,
 		PermSeed: r.Uint64()}
 	switch c.Elem {
